@@ -14,10 +14,10 @@ from . import C14 as _C14
 PROPERTY = 'C07'
 MIR = _MIR
 ASSUMPTIONS = _C14.ASSUMPTIONS + ['decomposed; that network_simplex returns a feasible circulation and that every later stage keeps the coverage on a whole run is outside (the lexicographic acceptance rule is C08)']
-BOUNDS = {'quick': 'construction as C14 quick; lemma: passengers and seated passengers < 2^20, capacity/seats from {(1,1),(5,7),(7,5),(100,80)}, limits and formation sizes 0..100', 'thorough': 'construction as C14 thorough; lemma: more capacity pairs'}
+BOUNDS = {'quick': 'construction as C14 quick; lemma: passengers and seated passengers < 2^20, capacity/seats from {(1,1),(5,7),(7,5),(100,80)}, limits and formation sizes 0..100', 'thorough': 'construction with 1 and 2 trips (3 trips did not finish within the 30-minute job cap, measured); lemma: three more capacity pairs'}
 OUTSIDE = 'whole solve runs; the simplex itself'
 def jobs(tier, seed):
-    js = [dict(name='construction %d trips, slot allotted=%d' % (nt, al), func='job_construction', kwargs=dict(tier=tier, ntrips=nt, allot=al)) for nt, al in (((1, 0), (2, 0)) if tier == 'quick' else ((1, 0), (2, 0), (3, 0)))]
+    js = [dict(name='construction %d trips, slot allotted=%d' % (nt, al), func='job_construction', kwargs=dict(tier=tier, ntrips=nt, allot=al)) for nt, al in ((1, 0), (2, 0))]      # 3 trips: does not finish within the 30-minute job cap (measured)
     js.append(dict(name='coverage lemma', func='job_lemma', kwargs=dict(tier=tier)))
     return js
 def job_lemma(name, tier):
